@@ -1,0 +1,141 @@
+//go:build verif
+
+package gcsemu
+
+// Contracts of the GCS upload / delete / patch handlers and their helpers (area "gcsupload").
+// Checked by /verif/govc. This file contains comments only.
+
+// ---------------------------------------------------------------------------------------------
+// parseConds: query parameters -> Conditions
+// ---------------------------------------------------------------------------------------------
+
+// condPresent: the parameter is supplied (non-empty); condOK: absent or parses as int64; condVal: the
+// value the Conditions field must have (0 when absent).
+//@ spec condPresent(vals url.Values, name string) bool = ufs_urlGet(vals, name) != ""
+//@ spec condOK(vals url.Values, name string) bool = ufs_urlGet(vals, name) == "" || ufb_parseIntOk(ufs_urlGet(vals, name), 10, 64)
+//@ spec condVal(vals url.Values, name string) int64 = (ufs_urlGet(vals, name) == "" ? 0 : uf_parseInt(ufs_urlGet(vals, name), 10, 64))
+
+//@ func parseConds
+//@   property C04 C20
+//@   loop 1 unroll 4
+//@   ensures (result1 == nil) <==> (condOK(vals, "ifGenerationMatch") && condOK(vals, "ifGenerationNotMatch") && condOK(vals, "ifMetagenerationMatch") && condOK(vals, "ifMetagenerationNotMatch"))
+//@   ensures result1 == nil ==> result0.GenerationMatch == condVal(vals, "ifGenerationMatch")
+//@   ensures result1 == nil ==> result0.GenerationNotMatch == condVal(vals, "ifGenerationNotMatch")
+//@   ensures result1 == nil ==> result0.MetagenerationMatch == condVal(vals, "ifMetagenerationMatch")
+//@   ensures result1 == nil ==> result0.MetagenerationNotMatch == condVal(vals, "ifMetagenerationNotMatch")
+//@   ensures result1 == nil ==> (result0.DoesNotExist <==> (condPresent(vals, "ifGenerationMatch") && uf_parseInt(ufs_urlGet(vals, "ifGenerationMatch"), 10, 64) == 0))
+
+// ---------------------------------------------------------------------------------------------
+// errors.go
+// ---------------------------------------------------------------------------------------------
+
+// ufb_chainHasGapi(err): the Unwrap chain of err contains a *googleapi.Error (errors.As would find it first,
+// and httpStatusCodeOf then returns that error's code, not the httpError's).
+//@ func httpStatusCodeOf
+//@   property C04 C20
+//@   ensures err == nil ==> result == 0
+//@   ensures typeis(err, *httpError) && as(err, *httpError) != nil && as(err, *httpError).code != 0 && !ufb_chainHasGapi(err) ==> result == as(err, *httpError).code
+
+//@ func (err *httpError) Error
+//@   property C20
+//@   pure
+
+//@ func (err *httpError) Unwrap
+//@   property C04 C20
+//@   pure
+//@   ensures result == err.cause
+
+// ---------------------------------------------------------------------------------------------
+// range.go
+// ---------------------------------------------------------------------------------------------
+
+// "bytes LO-HI/SZ", "bytes */SZ", "bytes LO-HI/*", "bytes */*". LO and HI are pieces of a string split at "-",
+// so they cannot carry a sign: a non-nil result has lo == hi == -1 (the "*" form) or lo, hi >= 0. sz is any int64
+// (a negative "SZ" parses) or -1 for "*".
+//@ func parseByteRange
+//@   property C02 C20
+//@   ensures !hasPrefix(in, "bytes ") ==> result == nil
+//@   ensures result != nil ==> fresh(result)
+//@   ensures result != nil ==> (result.lo == -1 && result.hi == -1) || (result.lo >= 0 && result.hi >= 0)
+
+// ---------------------------------------------------------------------------------------------
+// gcsemu.go: finishUpload
+// ---------------------------------------------------------------------------------------------
+
+//@ spec updIs400(e error) bool = typeis(e, *httpError) && as(e, *httpError) != nil && as(e, *httpError).code == 400
+
+// md5Matches(h, c): the declared hash h (base64) decodes to the 16-byte MD5 digest of c.
+//@ spec md5Matches(h string, c []byte) bool = len(ufs_b64dec(h)) == 16 && ufs_b64dec(h)[0] == uf_md5byte(c, 0) && ufs_b64dec(h)[1] == uf_md5byte(c, 1) && ufs_b64dec(h)[2] == uf_md5byte(c, 2) && ufs_b64dec(h)[3] == uf_md5byte(c, 3) && ufs_b64dec(h)[4] == uf_md5byte(c, 4) && ufs_b64dec(h)[5] == uf_md5byte(c, 5) && ufs_b64dec(h)[6] == uf_md5byte(c, 6) && ufs_b64dec(h)[7] == uf_md5byte(c, 7) && ufs_b64dec(h)[8] == uf_md5byte(c, 8) && ufs_b64dec(h)[9] == uf_md5byte(c, 9) && ufs_b64dec(h)[10] == uf_md5byte(c, 10) && ufs_b64dec(h)[11] == uf_md5byte(c, 11) && ufs_b64dec(h)[12] == uf_md5byte(c, 12) && ufs_b64dec(h)[13] == uf_md5byte(c, 13) && ufs_b64dec(h)[14] == uf_md5byte(c, 14) && ufs_b64dec(h)[15] == uf_md5byte(c, 15)
+
+// MD5 gate (C02): a declared MD5 that is not valid base64 is rejected with 400 before anything is touched: the
+// early return precedes the lock, every Store call and even the update of obj.Md5Hash ("obj.Md5Hash unchanged"
+// is the witness that neither locks.Run (modifies *) nor Store.Add (modifies fields(obj)) was reached).
+//@ func (g *GcsEmu) finishUpload
+//@   property C02 C04 C07 C20
+//@   requires obj != nil
+//@   requires !isnil(ctx)
+//@   modifies *, ghost(epoch), ghost(gcsValidEpoch), ghost(gcsReadEpoch), ghost(gcsReadObj), ghost(gcsReadMetagen), ghost(lmTick), ghost(lmLastOp), ghost(lmLastId)
+//@   ensures result1 != nil ==> result0 == nil
+//@   ensures result1 == nil ==> result0 != nil
+//@   ensures old(obj.Md5Hash) != "" && !ufb_b64ok(old(obj.Md5Hash)) ==> result0 == nil && updIs400(result1)
+//@   ensures old(obj.Md5Hash) != "" && !ufb_b64ok(old(obj.Md5Hash)) ==> obj.Md5Hash == old(obj.Md5Hash) && obj.TimeCreated == old(obj.TimeCreated) && obj.Name == old(obj.Name)
+//@   ensures old(obj.Md5Hash) != "" && ufb_b64ok(old(obj.Md5Hash)) && !md5Matches(old(obj.Md5Hash), contents) ==> result0 == nil && updIs400(result1)
+//@   ensures old(obj.Md5Hash) != "" && ufb_b64ok(old(obj.Md5Hash)) && !md5Matches(old(obj.Md5Hash), contents) ==> obj.Md5Hash == old(obj.Md5Hash) && obj.TimeCreated == old(obj.TimeCreated) && obj.Name == old(obj.Name)
+//@   ensures result1 == nil ==> old(obj.Md5Hash) == "" || (ufb_b64ok(old(obj.Md5Hash)) && md5Matches(old(obj.Md5Hash), contents))
+//@   ensures old(obj.Md5Hash) != "" && !ufb_b64ok(old(obj.Md5Hash)) ==> epoch == old(epoch)   // rejected without taking any lock (Run advances the epoch)
+//@   ensures old(obj.Md5Hash) != "" && ufb_b64ok(old(obj.Md5Hash)) && !md5Matches(old(obj.Md5Hash), contents) ==> epoch == old(epoch)
+
+// ---------------------------------------------------------------------------------------------
+// gcsemu.go: delete / patch handlers
+// ---------------------------------------------------------------------------------------------
+
+// Ghost footprint of everything that goes through locks.Run and the Store protocol (listed explicitly next to
+// 'modifies *'): epoch (key lock), gcsValidEpoch/gcsRead* (validated protocol of the Store contract), lm* (lock map).
+// The handlers return nothing; their observable result is the response written to w (ResponseWriter is modelled as
+// effect-free) and the Store calls made inside the locks.Run closure. What is checked here: no panic for any
+// request (C20), the preconditions of the Store interface at every call (meta != nil), lock balance.
+//@ func (g *GcsEmu) handleGcsDelete
+//@   property C02 C04 C07 C20
+//@   requires w != nil
+//@   requires !isnil(ctx)
+//@   modifies *, ghost(jsonBodies), ghost(epoch), ghost(gcsValidEpoch), ghost(gcsReadEpoch), ghost(gcsReadObj), ghost(gcsReadMetagen), ghost(lmTick), ghost(lmLastOp), ghost(lmLastId)
+//@   ensures jsonBodies <= old(jsonBodies) + 1   // at most one JSON body: the error envelope; success is a bare 204
+
+// r is a server-side request: net/http guarantees r.Body != nil.
+//@ func (g *GcsEmu) handleGcsUpdateMetadataRequest
+//@   property C04 C07 C20
+//@   requires w != nil && r != nil && r.Body != nil
+//@   requires !isnil(ctx)
+//@   modifies *, ghost(jsonBodies), ghost(epoch), ghost(gcsValidEpoch), ghost(gcsReadEpoch), ghost(gcsReadObj), ghost(gcsReadMetagen), ghost(lmTick), ghost(lmLastOp), ghost(lmLastId)
+//@   ensures jsonBodies == old(jsonBodies) + 1   // every path answers with exactly one JSON document (metadata or error envelope)
+
+// ---------------------------------------------------------------------------------------------
+// multipart.go / upload handlers
+// ---------------------------------------------------------------------------------------------
+
+// NewGcsEmu is the only constructor and always installs the upload-id cache; no code assigns the field afterwards.
+//@ typeinv nonnil GcsEmu.uploadIds
+
+// success ==> a fresh object whose Size is the length of the second part (C02: size matches what was sent);
+// failure ==> nothing else is returned.
+//@ func readMultipartInsert
+//@   property C02 C20
+//@   requires r != nil && r.Body != nil
+//@   ensures result2 == nil ==> result0 != nil
+//@   ensures result2 == nil ==> fresh(result0)
+//@   ensures result2 == nil ==> result0.Size == wrapu64(len(result1))   // == len(result1): a Go length is < 2^63, but govc's model has no upper bound on len()
+//@   ensures result2 != nil ==> result0 == nil && isnil(result1)
+
+//@ func (g *GcsEmu) handleGcsNewObject
+//@   property C02 C04 C20
+//@   requires w != nil && r != nil && r.Body != nil
+//@   requires !isnil(ctx)
+//@   modifies *, ghost(jsonBodies), ghost(epoch), ghost(gcsValidEpoch), ghost(gcsReadEpoch), ghost(gcsReadObj), ghost(gcsReadMetagen), ghost(lmTick), ghost(lmLastOp), ghost(lmLastId)
+//@   ensures jsonBodies <= old(jsonBodies) + 1   // at most one JSON body (resumable initiation / 308 answers have none)
+
+//@ func (g *GcsEmu) handleGcsNewObjectResume
+//@   property C02 C04 C20
+//@   requires w != nil && r != nil && r.Body != nil
+//@   requires !isnil(ctx)
+//@   modifies *, ghost(jsonBodies), ghost(epoch), ghost(gcsValidEpoch), ghost(gcsReadEpoch), ghost(gcsReadObj), ghost(gcsReadMetagen), ghost(lmTick), ghost(lmLastOp), ghost(lmLastId)
+//@   ensures jsonBodies <= old(jsonBodies) + 1   // at most one JSON body (resumable initiation / 308 answers have none)
